@@ -11,6 +11,7 @@ for i,a in enumerate(sys.argv):
 flt=args[0] if args else ''
 muts=json.load(open('/verif/selftest/mutants.json'))
 ok=True
+results=[]
 for m in muts:
     if flt and flt not in m['name']: continue
     d=tempfile.mkdtemp(prefix='mut.',dir='/tmp')
@@ -30,7 +31,10 @@ for m in muts:
             lines=[l for l in r.stdout.splitlines() if l.startswith('  C') or 'INCONCLUSIVE' in l]
             verdict={1:'CAUGHT',0:'MISSED',2:'INCONCLUSIVE'}.get(r.returncode,str(r.returncode))
             if r.returncode!=1: ok=False
-            print(f"{m['name']:45s} {prop} {verdict} {lines[0][:150] if lines else ''}")
+            print(f"{m['name']:45s} {prop} {verdict} {lines[0][:150] if lines else ''}",flush=True)
+            results.append({"mutant":m['name'],"file":m['file'],"property":prop,"verdict":verdict,"first_violation":(lines[0].strip()[:200] if lines else "")})
     finally:
         shutil.rmtree(d,ignore_errors=True)
+if not flt:
+    json.dump(results,open('/verif/selftest/results.json','w'),indent=1)
 sys.exit(0 if ok else 1)
